@@ -36,6 +36,7 @@ TECH = {
  "R32": "dominance of an index lookup over every opening of a segment's log file",
  "R33": "def-use classification of every value stored into Message.Time on the publish path",
  "R34": "def-use classification of the directory argument at every Segment constructor call site",
+ "R36": "CFG reachability from the success edge of the per-segment time lookup to the loop header, or dominance of every success return of the lookup by a strict comparison with the first timestamp",
  "R35": "error-atom flow: every outcome sentinel of a pure per-segment lookup is classified inside the loop over the segments",
 }
 
